@@ -35,7 +35,7 @@ from fractions import Fraction
 from vlib import core, corr
 
 GENERATORS = ["c12_consts", "c12_recv_order"]
-DEPENDS = ["AckQueue", "AckQueueP", "AckQueueP2", "AckQueueP3", "RecvAck", "RecvAckP", "RecvAckT", "RangeSet", "RangeSetP", "AckFrame",
+DEPENDS = ["AckQueue", "AckQueueP", "AckQueueP2", "AckQueueP3", "RecvAck", "RecvAckP", "RecvAckT", "RecvAckD", "RangeSet", "RangeSetP", "AckFrame",
            "AckFrameProofs", "C12Consts", "C12RecvOrder", "Base", "Tok", "C12"]
 TRUSTED_BASE = [
     "Coq kernel; extraction (ExtrOcamlBasic only; Z kept inductive) + coq/extract/driver.ml for running coq/model/AckQueue.v",
@@ -67,6 +67,9 @@ ASSUMPTIONS = [
     "composed timeliness (creach_t, ack_timely_composed): ONE clock for the whole connection that never goes back over "
     "packets and sends of all three spaces, every d = fl(now + _ack_delay) - now in [0, dmax], encodable delay, at most "
     "MAX_ACK_RANGES ranges queued at a send (same premise as reach_t); no premise on verdicts, payload effects, discards",
+    "composed discipline (creach_d, ack_timely_cap_composed): as creach_t without the range-count premise; per space, no "
+    "further packet of the space is handed to the connection before a send of that space with room for the ACK frame was "
+    "made (any pacer verdict); CAP_ACK_NOW and PACING_LE true (tree with docs/C12-fix-2.patch)",
     "ack_timely: at most MAX_ACK_RANGES ranges are queued when the ACK is written; with docs/C12-fix-2.patch (CAP_ACK_NOW, "
     "PACING_LE probed from the source) this premise is discharged by the driver discipline 'a datagrams_to_send with room "
     "after every receive_datagram' (ack_timely_cap); otherwise / without the discipline ack_timely_cap_refuted applies",
